@@ -9,7 +9,7 @@ from __future__ import annotations
 
 import itertools
 
-from mc.common import Ctx, pmap, rotate
+from mc.common import Ctx, pmap, rotate, tag, pmap_tagged
 from mc.fd import build
 from mc.refconstraint import And, Atom, Bare, Child, Desc, Idx, Or, Quant, Slc, Sym, Var, from_snapshot, holds, merge_whole, text
 from mc.refconstraint import readings as all_readings
@@ -255,7 +255,7 @@ def run(ctx: Ctx) -> None:
         ctx.log(f"{which}: {n} constraint programs x {nt} trees")
         items += [(which, i, ctx.tier) for i in range(n)]
     items = rotate(items, ctx.seed)
-    results = pmap(work, items, chunk=4)
+    results = pmap_tagged(work, items, chunk=4)
     pairs = accepted = raises = rejected = nontrivial = 0
     samples = []
     for r in results:
